@@ -76,10 +76,18 @@ backslash (the line protocol has no escape for it in names; string field VALUES 
 def SPoint.backslashName (p : SPoint) : Bool :=
   p.name.contains BS || p.tags.any (fun kv => kv.1.contains BS || kv.2.contains BS) || p.fields.any (fun kv => kv.1.contains BS)
 
+/-- Clause of finding `stream-whitespace-fieldkey`: the first (smallest) field key starts with TAB or NUL — the
+field section of the recorded line then begins with whitespace that the line protocol parser skips. -/
+def SPoint.wsFieldKey (p : SPoint) : Bool :=
+  match p.fields.head? with
+  | some kv => kv.1.head? == some TAB || kv.1.head? == some 0
+  | none => false
+
 /-- Key of the deviation that applies to a recorded point, if any. -/
 def SPoint.devKey (p : SPoint) : Option String :=
   if p.dirty then some "stream-newline-framing" else if p.hashName then some "stream-hash-measurement"
-  else if p.backslashName then some "stream-backslash-name" else none
+  else if p.backslashName then some "stream-backslash-name"
+  else if p.wsFieldKey then some "stream-whitespace-fieldkey" else none
 
 /-- Index and key of the first recorded point to which a deviation clause applies. -/
 def firstDev : List SPoint → Nat → Option (Nat × String)
@@ -167,5 +175,43 @@ def batchDevs (bs : List Batch) : List String × List Batch :=
 /-- Keep the group observations of the batches that survive `devEmptyApply`. -/
 def devGroups (bs : List Batch) (gs : List (Bytes × List Bytes)) : List (Bytes × List Bytes) :=
   ((bs.zip gs).filter (fun bg => !bg.1.points.isEmpty)).map (·.2)
+
+/-! ### Live replays (`ReplayStreamFromChan` / `ReplayBatchFromChan` fed from a channel)
+
+The same statement; nothing is recorded in between, so there is no representation to excuse anything: every point
+and EVERY batch — also one without points, which carries a group and a batch time — must be delivered, with all
+timestamps identical or shifted by one offset. Streams use `specStream` as it is. -/
+
+structure LObs where
+  status : Status
+  closes : Nat
+  closedAt : Nat
+  /-- delivered batch, and whether its batch time is a non-zero time -/
+  items : List (Batch × Bool)
+  groups : List (Bytes × List Bytes)
+deriving Repr
+
+/-- The timestamps of a batch on a channel: its points' times, then its batch time when it has one (a zero
+`time.Time` is "no batch time": the replay fills one in) that is not before its points. -/
+def LBatch.times (lb : LBatch) : List Int := lb.b.points.map (·.time) ++ (if lb.hasT && lb.b.wfTmax then [lb.b.tmax] else [])
+
+/-- The delivered timestamps at the same positions. -/
+def liveOutTimes (lb : LBatch) (o : Batch) : List Int := o.points.map (·.time) ++ (if lb.hasT && lb.b.wfTmax then [o.tmax] else [])
+
+def specBatchLive (recTime : Bool) (recorded : List LBatch) (recGroups : List (Bytes × List Bytes)) (o : LObs) : Option String :=
+  let outs := o.items.map (·.1)
+  let ins := recorded.map (·.b)
+  if o.status != .ok then some "replay-succeeds"
+  else if o.items.length != recorded.length then some "same-number-of-batches"
+  else if !(o.closes == 1 && o.closedAt == recorded.length) then some "ends-after-last"
+  else if !((ins.zip outs).all (fun pq => pq.1.name == pq.2.name && pq.1.byName == pq.2.byName && pq.1.tags == pq.2.tags)) then some "same-name-tags"
+  else if recGroups != o.groups then some "same-group"
+  else if !((ins.zip outs).all (fun pq => pq.1.points.length == pq.2.points.length)) then some "same-number-of-points"
+  else if !((ins.zip outs).all (fun pq => pq.1.points.map (·.tags) == pq.2.points.map (·.tags))) then some "same-point-tags"
+  else if !((ins.zip outs).all (fun pq => pq.1.points.map (·.fields) == pq.2.points.map (·.fields))) then some "same-field-values"
+  else if !((recorded.zip o.items).all (fun pq => !pq.1.hasT || pq.2.2)) then some "batch-time-kept"
+  else if !timesOK recTime (recorded.flatMap LBatch.times) ((recorded.zip outs).flatMap (fun pq => liveOutTimes pq.1 pq.2))
+    then some "times-identical-or-one-offset"
+  else none
 
 end Kap.C18
